@@ -4,7 +4,7 @@
 From Coq Require Import NArith List Bool Lia Permutation.
 From Blue Require Import Gen.Const_Setsum Setsum.Model Setsum.Proofs.
 From Blue Require Import Lsm.KeyOrder Lsm.SortLemmas.
-From Blue Require Import Books.Model Books.ProofsGroup Books.ProofsAC Books.ProofsChain.
+From Blue Require Import Books.Model Books.ProofsGroup Books.ProofsAC Books.ProofsChain Books.ProofsVerify Books.ProofsGc.
 Import ListNotations.
 Open Scope N_scope.
 
@@ -112,10 +112,26 @@ Proof.
     intros E. apply Hng. rewrite E. now apply in_map.
 Qed.
 
+Lemma disk_le_refl d : disk_le d d.
+Proof. intros x es E. exact E. Qed.
+Lemma disk_le_add_disk d f : disk_le d (add_disk d f).
+Proof. intros x es E. now apply lookup_add_disk_old. Qed.
+Lemma disk_le_add_disks d fs : disk_le d (add_disks d fs).
+Proof. intros x es E. now apply lookup_add_disks_old. Qed.
+
 Section WithHash.
   Variable H : list N -> list N.
   Hypothesis H_ok : forall x, bytes_ok (H x) /\ length (H x) = 32%nat.
   Variable coll : list entry -> list (key * N).
+
+  Lemma gc_pass_mono d d' t : disk_le d d' -> gc_pass H coll d t -> gc_pass H coll d' t.
+  Proof. intros Hle Hp G. apply (verify_gc_mono H coll d d'); [assumption|now apply Hp]. Qed.
+
+  Lemma gc_pass_no_rms d t : trms t = [] -> gc_pass H coll d t.
+  Proof. intros E G. unfold gc_needed in G. rewrite E in G. apply andb_prop in G. destruct G as [_ G]. discriminate. Qed.
+
+  Lemma gc_pass_no_discard d t : tD t = zero -> gc_pass H coll d t.
+  Proof. intros E G. unfold gc_needed in G. rewrite E, state_eqb_refl in G. discriminate. Qed.
 
   Definition file_ok (f : bfile) : Prop := bsum f = builder_setsum H (bents f).
 
@@ -155,7 +171,8 @@ Section WithHash.
     inv_info : canonical (mI (bman b)) /\ canonical (mD (bman b));
     inv_canon : Forall (Forall txn_canon) (mfragments (bman b));
     inv_log : log_ok (bman b);
-    inv_disk : forall f, In f (btree b) -> lookup (bdisk b) (bsum f) = Some (bents f)
+    inv_disk : forall f, In f (btree b) -> lookup (bdisk b) (bsum f) = Some (bents f);
+    inv_gc : Forall (Forall (gc_pass H coll (bdisk b))) (mfragments (bman b))
   }.
 
   Lemma inv_strs_canonical b : Inv b -> Forall canonical (mstrs (bman b)).
@@ -176,6 +193,7 @@ Section WithHash.
     - unfold mfragments. cbn. repeat constructor; apply zero_canonical.
     - unfold log_ok, mfragments. cbn. repeat split; discriminate.
     - intros f [].
+    - unfold mfragments. cbn. repeat constructor; now apply gc_pass_no_rms.
   Qed.
 
   (* ---- the generic commit: an edit whose adds/removes are exactly the change of the tree ---- *)
@@ -188,9 +206,10 @@ Section WithHash.
     (forall x, In x (names tree') <-> In x (tadds t) \/ (In x (names (btree b)) /\ ~ In x (trms t))) ->
     add_state (compute_setsum tree') (sum (trms t)) = add_state (compute_setsum (btree b)) (sum (tadds t)) ->
     (forall f, In f tree' -> lookup disk' (bsum f) = Some (bents f)) ->
+    disk_le (bdisk b) disk' -> gc_pass H coll disk' t ->
     state_eqb (compute_setsum tree') (tO t) = true /\ Inv (mkBS tree' (apply_edit (bman b) t roll) disk').
   Proof.
-    intros I HI Hsub HD Ha Hr Hdisc Hfiles Hnd Hnames Hcons Hdisk.
+    intros I HI Hsub HD Ha Hr Hdisc Hfiles Hnd Hnames Hcons Hdisk Hle Hgc.
     assert (HT : canonical (tI t)) by (rewrite HI; apply compute_setsum_canonical, (inv_files b I)).
     destruct (commit_balance (tI t) (tO t) (tD t) (tadds t) (trms t) (compute_setsum tree')) as (E & HO & Hbal);
       try assumption; [now apply compute_setsum_canonical|now rewrite HI|].
@@ -211,6 +230,10 @@ Section WithHash.
     - apply apply_edit_log_ok; [apply (inv_log b I)|].
       unfold txn_ok. rewrite (inv_O b I). tauto.
     - assumption.
+    - apply apply_edit_forall; [|assumption|intros m'; now apply gc_pass_no_rms].
+      pose proof (inv_gc b I) as Hg. apply Forall_forall. intros fr Hfr. rewrite Forall_forall in Hg.
+      specialize (Hg fr Hfr). apply Forall_forall. intros t0 Ht0. rewrite Forall_forall in Hg.
+      apply (gc_pass_mono (bdisk b)); [assumption|now apply Hg].
   Qed.
 
   (* ---- ingest ---- *)
@@ -242,6 +265,8 @@ Section WithHash.
     - intros g Hg. apply in_app_or in Hg. destruct Hg as [Hg|[<-|[]]].
       + apply lookup_add_disk_old. now apply (inv_disk b I).
       + now apply lookup_add_disk_new.
+    - apply disk_le_add_disk.
+    - now apply gc_pass_no_rms.
     - unfold t in *. cbn [tO] in Eeq. rewrite Eeq. eauto.
   Qed.
 
@@ -304,9 +329,10 @@ Section WithHash.
     Inv b -> open_inputs (btree b) inputs = Some fs -> outs_ok b inputs outs = true ->
     Forall file_ok outs -> canonical discard ->
     sum inputs = add_state (sum (map bsum outs)) discard ->
+    (discard <> zero -> verify_gc H coll (add_disks (bdisk b) outs) inputs (map bsum outs) discard = Ok tt) ->
     exists b', compaction_finish b inputs outs (sum inputs) discard roll = Ok b' /\ Inv b'.
   Proof.
-    intros I Hopen Hacc Houts Hd Hbal. unfold compaction_finish.
+    intros I Hopen Hacc Houts Hd Hbal Hvgc. unfold compaction_finish.
     assert (Eb : state_eqb (sum inputs) (add_state (sum (map bsum outs)) discard) = true) by (apply state_eqb_eq; exact Hbal).
     rewrite Eb. cbn [negb].
     destruct (outs_ok_spec b inputs outs Hacc) as (Hfresh & Hndo & Hndi).
@@ -351,6 +377,9 @@ Section WithHash.
       + apply lookup_add_disks_old. apply (inv_disk b I). unfold rest in Hg. apply filter_In in Hg. tauto.
       + apply lookup_add_disks_new; [assumption| |assumption].
         apply Forall_forall. intros f Hf. rewrite Forall_forall in Hfresh. now apply (proj2 (Hfresh f Hf)).
+    - apply disk_le_add_disks.
+    - intros G. unfold gc_needed in G. cbn [tD trms tadds] in *. apply andb_prop in G. destruct G as [G _].
+      apply Hvgc. apply negb_true_iff in G. now apply state_eqb_neq.
     - unfold t, rest in *. cbn [tO] in Eeq. rewrite Eeq. eauto.
   Qed.
 
@@ -381,6 +410,7 @@ Section WithHash.
     - apply zero_canonical.
     - rewrite built_files_sum, concat_cut. rewrite add_zero_r by now apply builder_setsum_canonical.
       now apply (inputs_sum_entries b).
+    - intros Hne. now contradiction Hne.
   Qed.
 
   (* ---- the GC walk conserves the setsum ---- *)
@@ -412,7 +442,7 @@ Section WithHash.
   Proof.
     intros I Hacc. unfold gc. cbn [accepted] in Hacc.
     destruct (open_inputs (btree b) inputs) as [fs|] eqn:Hopen; [|right; now left].
-    apply andb_prop in Hacc. destruct Hacc as [_ Hacc].
+    apply andb_prop in Hacc. destruct Hacc as [Hstrict Hacc].
     destruct (gc_walk H (coll (merged fs)) (merged fs) [] zero) as [[kept discard]|] eqn:Ew; [left|right; now right].
     destruct (gc_walk_balance _ _ _ _ _ _ zero_canonical Ew) as [Hd Hbal].
     apply (compaction_finish_inv b inputs fs); try assumption.
@@ -421,6 +451,13 @@ Section WithHash.
       change (builder_setsum H []) with zero. rewrite (add_zero_l zero) by apply zero_canonical.
       rewrite add_zero_l by now apply builder_setsum_canonical.
       now apply (inputs_sum_entries b).
+    - intros _. destruct (open_inputs_spec _ _ _ Hopen) as [Hmap Hfs]. rewrite <- Hmap.
+      destruct (outs_ok_spec _ _ _ Hacc) as (Hfresh & Hndo & _).
+      apply (verify_gc_accepts_walk H H_ok coll); try assumption.
+      + intros f Hf. apply lookup_add_disks_old. apply (inv_disk b I). rewrite Forall_forall in Hfs. now apply Hfs.
+      + intros f Hf. apply lookup_add_disks_new; [assumption| |assumption].
+        apply Forall_forall. intros g Hg. rewrite Forall_forall in Hfresh. now apply (proj2 (Hfresh g Hg)).
+      + now apply kstrictb_spec.
   Qed.
 
   (* ---- trivial move ---- *)
@@ -463,6 +500,7 @@ Section WithHash.
     - apply (inv_canon b I).
     - apply (inv_log b I).
     - intros g Hg. apply (inv_disk b I). apply (Permutation_in _ (Permutation_sym Hperm) Hg).
+    - apply (inv_gc b I).
   Qed.
 
   (* ---- flush ---- *)
@@ -489,6 +527,7 @@ Section WithHash.
       rewrite (inv_O b I). apply compute_setsum_canonical, (inv_files b I).
     - apply rollover_log_ok, (inv_log b I).
     - apply (inv_disk b I).
+    - apply rollover_forall; [apply (inv_gc b I)|now apply gc_pass_no_rms].
   Qed.
 
   Lemma reopen_inv b log roll : Inv b -> accepted H coll b (BReopen log roll) = true ->
@@ -527,6 +566,8 @@ Section WithHash.
     - intros g Hg. apply in_app_or in Hg. destruct Hg as [Hg|[<-|[]]].
       + apply lookup_add_disk_old. now apply (inv_disk b I).
       + now apply lookup_add_disk_new.
+    - apply disk_le_add_disk.
+    - now apply gc_pass_no_rms.
     - unfold b1, t in *. cbn [bman tO] in *.
       destruct (apply_edit_fields (rollover (bman b)) (mkT (mO (bman b)) out disc [bsum f] [] None) roll) as (_ & _ & EO & _).
       cbn [tO] in EO. first [rewrite EO | unfold rollover in *; rewrite EO]. rewrite Eeq. eexists. split; [reflexivity|exact I'].
